@@ -217,34 +217,6 @@ func superMain(args []string) int {
 		return 2
 	}
 	defer f.Close()
-	var lines [][]byte
-	rd := bufio.NewReaderSize(f, 1<<20)
-	for {
-		line, err := rd.ReadBytes('\n')
-		if len(line) > 1 {
-			lines = append(lines, line)
-		}
-		if err != nil {
-			break
-		}
-	}
-	// shard round-robin so that expensive neighbourhoods spread out
-	shards := make([][][]byte, cfg.workers)
-	for i, l := range lines {
-		shards[i%cfg.workers] = append(shards[i%cfg.workers], l)
-	}
-	results := make([][][]byte, cfg.workers)
-	stats := make([]superStats, cfg.workers)
-	var wg sync.WaitGroup
-	self, _ := os.Executable()
-	for w := 0; w < cfg.workers; w++ {
-		wg.Add(1)
-		go func(w int) {
-			defer wg.Done()
-			results[w], stats[w] = superWorker(self, shards[w], cfg)
-		}(w)
-	}
-	wg.Wait()
 	of, err := os.Create(cfg.out)
 	if err != nil {
 		fmt.Fprintln(os.Stderr, err)
@@ -252,21 +224,59 @@ func superMain(args []string) int {
 	}
 	bw := bufio.NewWriterSize(of, 1<<20)
 	var total superStats
-	// restore the original order
-	idx := make([]int, cfg.workers)
-	for i := range lines {
-		w := i % cfg.workers
-		if idx[w] < len(results[w]) {
-			bw.Write(results[w][idx[w]])
-			idx[w]++
+	bads := make([]int, cfg.workers) // child deaths per worker, over all blocks (circuit breaker)
+	self, _ := os.Executable()
+	rd := bufio.NewReaderSize(f, 1<<20)
+	// the cases go through in blocks, so that neither the input nor the traces are ever held as a whole
+	const blockBytes = 256 << 20
+	for eof := false; !eof; {
+		var lines [][]byte
+		for sz := 0; sz < blockBytes && len(lines) < 400000; {
+			line, err := rd.ReadBytes('\n')
+			if len(line) > 1 {
+				lines = append(lines, line)
+				sz += len(line)
+			}
+			if err != nil {
+				eof = true
+				break
+			}
 		}
-	}
-	for _, s := range stats {
-		total.cases += s.cases
-		total.hang += s.hang
-		total.fatal += s.fatal
-		total.skipped += s.skipped
-		total.infra += s.infra
+		if len(lines) == 0 {
+			break
+		}
+		// shard round-robin so that expensive neighbourhoods spread out
+		shards := make([][][]byte, cfg.workers)
+		for i, l := range lines {
+			shards[i%cfg.workers] = append(shards[i%cfg.workers], l)
+		}
+		results := make([][][]byte, cfg.workers)
+		stats := make([]superStats, cfg.workers)
+		var wg sync.WaitGroup
+		for w := 0; w < cfg.workers; w++ {
+			wg.Add(1)
+			go func(w int) {
+				defer wg.Done()
+				results[w], stats[w] = superWorker(self, shards[w], cfg, &bads[w])
+			}(w)
+		}
+		wg.Wait()
+		// restore the original order
+		idx := make([]int, cfg.workers)
+		for i := range lines {
+			w := i % cfg.workers
+			if idx[w] < len(results[w]) {
+				bw.Write(results[w][idx[w]])
+				idx[w]++
+			}
+		}
+		for _, s := range stats {
+			total.cases += s.cases
+			total.hang += s.hang
+			total.fatal += s.fatal
+			total.skipped += s.skipped
+			total.infra += s.infra
+		}
 	}
 	bw.Flush()
 	of.Close()
@@ -281,11 +291,12 @@ type superStats struct{ cases, hang, fatal, skipped, infra int }
 
 // superWorker feeds one shard through child processes, restarting the child
 // after every death. Each case yields exactly one trace line.
-func superWorker(self string, cases [][]byte, cfg superCfg) ([][]byte, superStats) {
+func superWorker(self string, cases [][]byte, cfg superCfg, badp *int) ([][]byte, superStats) {
 	var out [][]byte
 	var st superStats
 	pos := 0
-	bad := 0
+	bad := *badp
+	defer func() { *badp = bad }()
 	for pos < len(cases) {
 		if bad >= cfg.maxBad {
 			// circuit breaker: the tree is badly broken; what was recorded is enough
